@@ -94,7 +94,7 @@ SPEC = dict(
          "position i and s >= thr), on the implementation's own scores; take(k) = min(k,#qualifying) distinct "
          "qualifying hits; any panic on a configured input. DIFF: bit-exact comparison with the extracted binary32 "
          "scanner model incl. yield order and panic sites. Non-trivial: distinct (M, L, B, wrap, thr, matrix) with "
-         "L >= M and wrap >= M-1. Theorems (13): C02_scan_sound, C02_take_sound (unconditional), C02_scan_complete, "
+         "L >= M and wrap >= M-1. Theorems (15): C02_scan_sound, C02_take_sound (unconditional), C02_scan_complete, "
          "C02_next_total, C02_take_prefix (all B >= 1, all R/Lm incl. L<M, L=0, R multiple of B, any threshold; under "
          "the layout hypotheses and C08 conservativeness at the threshold), C02_scan_blocks_partition, C02_scan_reads_blocks_only (next() scores no row range other than "
          "the blocks), C02_check_sound, "
@@ -102,7 +102,10 @@ SPEC = dict(
          "layout hypotheses discharged: C02_concrete_scan, C02_concrete_scan_explicit (scores written out as the "
          "left-to-right f32 sum / saturating byte sum of the window cells), C02_concrete_scan_c08 (conservativeness "
          "reduced to C08's main clause per position, via coq/disc's C08_scale_monotone_f32 and the sign of the factor, "
-         "which is clear since the repair of F14b), "
+         "which is clear since the repair of F14b), C02_concrete_scan_well_conditioned / C02_concrete_scan_wc_checked (NO numeric "
+         "hypothesis left: for matrices with finite non-wildcard cells that satisfy coq/disc's executable conditioning "
+         "predicate - evaluated by the driver as wc_input on every lost hit - the concrete binary32 scanner yields exactly "
+         "the qualifying positions; through DiscBridge.v: the two models of to_discrete / scale / the window scores agree), "
          "C02_concrete_sound. The corpus (run first) holds boundary cases, the inputs on which seven deliberate "
          "mutations of scan.rs and the seeded changes were caught, the witnesses of the repaired defect F14b (must pass) and "
          "the witness of the known finding F14-c02.",
@@ -118,6 +121,10 @@ SPEC = dict(
         "for the concrete model in ConcreteProofs.v for every well-formed input (C >= 1, M >= 1, wrap >= M-1, matrix "
         "rows of >= K cells, symbols < K) and every arm",
         "qualifying scores are not NaN: follows from the IEEE comparison (F32Order.v: x >= t implies x is not NaN)",
+        "C02_concrete_scan_well_conditioned / _wc_checked import coq/disc's binary32 main-clause theorem "
+        "(DiscF32Sign.f32_main_all_factors' = C08_f32_main_well_conditioned_partial) through coq/scan/DiscBridge.v; their side "
+        "conditions are executable (finite non-wildcard cells, factor not NaN and 0 or >= 8(M+1)ulp(A), M <= 16384, "
+        "A <= 2^126) and hold on all generated cases; the Reals axioms of the Coq standard library are used there",
         "C02_concrete_scan_c08 imports coq/disc (DiscF32Mono.scale_with_f32_mono: binary32 scale is monotone when the "
         "sign bit of the factor is clear; DiscF32Sign.div_abs_sign: it is, for the repaired to_discrete); its only "
         "numeric hypothesis is C08's main clause at every position (byte score >= scale(real score)), which is false "
